@@ -37,6 +37,15 @@ class Driver(ChanDriver):
             (1, [(1, ('publish', True), []),
                  (1, ('rpc', 0), [[(1, F('NReturn', 312)), (1, F('NHeader', 0))], [], [(1, F('NDeclareOk', 1))]]),
                  (1, ('check',), []), (1, ('rpc', 0), [[(1, F('NDeclareOk', 2))]])]),
+            # the broker cancels a consumer while a synchronous call that holds the channel lock
+            # (cancel / consume) waits for its answer; the answer is right behind
+            (1, [(1, ('consume', b'a'), [[(1, F('NConsumeOk', 0, b'a'))]]),
+                 (1, ('consume', b'b'), [[(1, F('NConsumeOk', 0, b'b'))]]),
+                 (1, ('cancel', b'a'), [[(1, F('NCancel', 0, b'b')), (1, F('NCancelOk', 0, b'a'))]]),
+                 (1, ('rpc', 0), [[(1, F('NDeclareOk', 1))]])]),
+            (1, [(1, ('consume', b'a'), [[(1, F('NConsumeOk', 0, b'a'))]]),
+                 (1, ('consume', b'b'), [[(1, F('NCancel', 0, b'a'))], [(1, F('NConsumeOk', 0, b'b'))]]),
+                 (1, ('rpc', 0), [[(1, F('NDeclareOk', 1))]])]),
         ]
 
     def fingerprint(self, case):
